@@ -122,6 +122,11 @@ func (s *HTTPMessageSignatures) init() error {
 
 	keys := make([]jose.JSONWebKey, len(ks.Entries()))
 	for idx, entry := range ks.Entries() {
+		if err = entry.SupportsJOSE(); err != nil {
+			return errorchain.NewWithMessage(heimdall.ErrConfiguration,
+				"key store contains a key, which cannot be used for signing purposes").CausedBy(err)
+		}
+
 		keys[idx] = entry.JWK()
 	}
 
